@@ -20,6 +20,23 @@ def minLocalNs : Int := -377705116800000000000
 /-- `PrimitiveDateTime::MAX.assume_utc().unix_timestamp_nanos()` (9999-12-31 23:59:59.999999999). -/
 def maxLocalNs : Int := 253402300799999999999
 
+/-- Days since 1970-01-01 of the proleptic-Gregorian date `y-m-d` (the standard
+"days from civil" computation; `/`, `%` are floor division on `Int`).  Used only to
+tie `minLocalNs` / `maxLocalNs` to the year range extracted from the `time` crate
+(`Props/C14.local_range_consts`). -/
+def daysFromCivil (y m d : Int) : Int :=
+  let y' := if m ≤ 2 then y - 1 else y
+  let era := y' / 400
+  let yoe := y' - era * 400
+  let mp := (m + 9) % 12
+  let doy := (153 * mp + 2) / 5 + d - 1
+  let doe := yoe * 365 + yoe / 4 - yoe / 100 + doy
+  era * 146097 + doe - 719468
+
+/-- Nanoseconds since the epoch of `y-m-d hh:mm:ss.nanos` (UTC). -/
+def civilNs (y m d hh mm ss nanos : Int) : Int :=
+  ((daysFromCivil y m d * 24 + hh) * 60 + mm) * 60 * 1000000000 + ss * 1000000000 + nanos
+
 /-- The representable range of `time::PrimitiveDateTime` (years -9999 ..= 9999). -/
 def InRange (ns : Int) : Prop := minLocalNs ≤ ns ∧ ns ≤ maxLocalNs
 
